@@ -1296,11 +1296,14 @@ static C13_GATE: AtomicU64 = AtomicU64::new(0); // pause hook: 0 = no hold, else
 
 fn c13(seed: u64, case: u64, out: &Out) {
     let mut rng = Rng::for_case(seed ^ 0xC13, case);
-    // 0 cancel while queued, 1 cancel while running, 2 cancel while suspended in a delay, 3 forced: the running target finishes between lookup and signal
-    let phase = case % 4;
+    // 0 cancel while queued, 1 cancel while running, 2 cancel while suspended in a delay, 3 forced: the running target finishes between lookup and signal,
+    // 4 late cancel: the target (detached: its handle was dropped) has finished long ago and its worker is busy with another task
+    let phase = case % 5;
     let others = rng.usize(3, 12);
-    let workers = if phase == 0 { 1 } else if phase >= 2 { rng.usize(2, 3) } else { rng.usize(1, 3) };
-    out.begin(case, jobj! {"target_phase" => ["queued", "running", "suspended (delay)", "running, and it yields the thread to another task between the canceller's lookup and its signal (forced through the pause hook)"][phase as usize],
+    let workers = if phase == 0 || phase == 4 { 1 } else if phase >= 2 { rng.usize(2, 3) } else { rng.usize(1, 3) };
+    let victim_suspended = phase == 4 && rng.chance(1, 2);
+    out.begin(case, jobj! {"target_phase" => ["queued", "running", "suspended (delay)", "running, and it yields the thread to another task between the canceller's lookup and its signal (forced through the pause hook)",
+        "finished: the target was detached (handle dropped) and ran to completion, the cancel arrives while its former worker runs or is parked in another task"][phase as usize],
         "other_tasks" => others, "pool_max_size" => workers});
     init(1, workers, 0, 0);
     C13_EVENTS.lock().unwrap().clear();
@@ -1368,17 +1371,27 @@ fn c13(seed: u64, case: u64, out: &Out) {
         Some(target_uid)
     }, None, Some(0));
     let target_id = th.id().unwrap_or(0);
+    let mut th = Some(th);
+    if phase == 4 {
+        // detach the target before it has run
+        drop(th.take());
+    }
     for i in 1..=others {
         // phase 2: task 1 is a long spinner, so that somebody else is running on the thread when the suspended target is cancelled
-        let kind = if phase == 3 || (phase == 2 && i == 1) { 1 } else { rng.below(3) };
+        let kind = if phase == 4 && i == 1 { if victim_suspended { 3 } else { 1 } } else if phase == 3 || (phase == 2 && i == 1) { 1 } else { rng.below(3) };
         let h = EventLoops::submit_task(None, move |_| {
             stamp(i, "start");
             match kind {
                 0 => {}
                 1 => {
                     let t = Instant::now();
-                    while t.elapsed() < Duration::from_millis(if phase == 3 { 150 } else if phase == 2 && i == 1 { 250 } else { 3 }) {
+                    while t.elapsed() < Duration::from_millis(if phase == 3 { 150 } else if (phase == 2 || phase == 4) && i == 1 { 250 } else { 3 }) {
                         std::hint::spin_loop();
+                    }
+                }
+                3 => {
+                    if let Some(s) = SchedulableSuspender::current() {
+                        s.delay(Duration::from_millis(250));
                     }
                 }
                 _ => {
@@ -1414,6 +1427,15 @@ fn c13(seed: u64, case: u64, out: &Out) {
             // give the (asynchronous) signal time to land on the target before it is allowed to finish
             std::thread::sleep(Duration::from_millis(5));
             release.store(true, Ordering::SeqCst);
+        }
+        4 => {
+            // wait until the target is history and the first other task is running (or parked) on the only worker
+            while !(ended(target_uid) && started(1)) && t0.elapsed() < Duration::from_secs(5) {
+                std::thread::sleep(Duration::from_millis(1));
+            }
+            std::thread::sleep(Duration::from_millis(30));
+            cancel_phase_ok = ended(target_uid) && started(1) && !ended(1);
+            EventLoops::try_cancel_task(target_id);
         }
         _ => {
             while !started(target_uid) && t0.elapsed() < Duration::from_secs(5) {
@@ -1452,12 +1474,12 @@ fn c13(seed: u64, case: u64, out: &Out) {
             let st = started(*uid);
             let en = ended(*uid);
             let kind = if !st { "another-task-never-ran" } else if !en { "another-task-was-interrupted" } else { "another-task-lost-its-result" };
-            let ctx = if kind == "another-task-was-interrupted" && (phase == 1 || phase == 3) { "cancel-signal-landed-on-another-coroutine".to_string() } else { format!("target-{}", ["queued", "running", "suspended", "yielded-between-lookup-and-signal"][phase as usize]) };
-            viol = viol.or(Some((format!("{kind}/{ctx}"), format!("task {uid}: started={st} ended={en} join={r:?} (target phase: {})", ["queued", "running", "suspended", "yielded the thread between the canceller's lookup and its signal"][phase as usize]))));
+            let ctx = if kind == "another-task-was-interrupted" && (phase == 1 || phase == 3) { "cancel-signal-landed-on-another-coroutine".to_string() } else { format!("target-{}", ["queued", "running", "suspended", "yielded-between-lookup-and-signal", "had-finished-long-before"][phase as usize]) };
+            viol = viol.or(Some((format!("{kind}/{ctx}"), format!("task {uid}: started={st} ended={en} join={r:?} (target phase: {})", ["queued", "running", "suspended", "yielded the thread between the canceller's lookup and its signal", "finished and detached; its former worker was busy with this task"][phase as usize]))));
         }
     }
     let tj0 = Instant::now();
-    let tr = th.timeout_join(Duration::from_secs(3));
+    let tr = th.as_ref().map(|h| h.timeout_join(Duration::from_secs(3)));
     let tj = tj0.elapsed().as_millis() as u64;
     if phase == 0 && cancel_phase_ok {
         if started(target_uid) {
